@@ -293,7 +293,11 @@ func cmdCheck(args []string) int {
 			defer wg.Done()
 			sem <- struct{}{}
 			defer func() { <-sem }()
-			wargs := []string{"worker", "--pkg", j.h.PkgDir, "--harness", j.h.Name, "--out", j.out, "--solver", *solver, "--tier", *tier}
+			useSolver := *solver
+			if j.h.Solver != "" {
+				useSolver = j.h.Solver
+			}
+			wargs := []string{"worker", "--pkg", j.h.PkgDir, "--harness", j.h.Name, "--out", j.out, "--solver", useSolver, "--tier", *tier}
 			if strings.Contains(j.h.Bounds, "GOARCH=arm64") {
 				wargs = append(wargs, "--arch", "arm64")
 			}
